@@ -4,6 +4,8 @@
 EXTENDS LfsConn, Json, IOUtils
 
 ClsStream == {"ka", "tiny", "pkt", "bad", "ver9", "verX"}
+ClsSeg == {"ka", "tiny", "pkt", "bad"}
+ClsGate == {"ver9", "verX", "pkt"}
 ClsSmall  == {"ka", "pkt", "bad", "verX"}
 ClsShort  == {"ka", "pkt", "short"}
 ClsUdp    == {"ka", "pkt", "bad"}
@@ -18,10 +20,38 @@ TWs == {"ws"}
 GateBoth == {TRUE, FALSE}
 GateOn == {TRUE}
 
-\* A behaviour is worth replaying when the reader is at rest and everything sent was consumed
-Done == Quiescent /\ (IsWs => wsq = <<>>) /\ Len(sent) >= 1
+FrameAny(n, c) == TRUE
+\* lengths the concrete frames of a class really have (keep-alive / TINY 4, VER 20)
+FrameReal(n, c) == /\ (c \in {"ka", "tiny", "short"} => n = 4)
+                   /\ (c \in {"ver9", "verX"} => n = 20)
+L4820 == {4, 8, 20}
+L48_12_20 == {4, 8, 12, 20}
 
-Emit == IF "EMIT" \in DOMAIN IOEnv /\ Done
+\* Replay generation keeps hist in the state (no VIEW): one state per path.  Partial-order
+\* reduction for the scripted stream transport: the peer sends everything before the first
+\* read() - the transport, not the arrival time, decides how the bytes are segmented.
+SendFirst == (Len(sent') > Len(sent) \/ eof' # eof) => ~\E i \in DOMAIN hist : hist[i].a = "read"
+\* ... and only the first SmallFills transport reads of a behaviour take an arbitrary size;
+\* later ones deliver everything that is available (bounds the number of paths, not their shape)
+SmallFills == 3
+SmallSizes == {1, 3, 4, 5, 8}
+NFills == Cardinality({i \in DOMAIN hist : hist[i].a = "fill"})
+FillBudget == (Len(hist') > Len(hist) /\ hist'[Len(hist')].a = "fill" /\ NFills >= SmallFills)
+                 => hist'[Len(hist')].n = Min2(Offered, Len(net))
+SizeBudget == (Len(hist') > Len(hist) /\ hist'[Len(hist')].a = "fill")
+                 => (hist'[Len(hist')].n \in SmallSizes \/ hist'[Len(hist')].n = Min2(Offered, Len(net)))
+PongBudget == (Len(hist') > Len(hist) /\ hist'[Len(hist')].a = "pongw") => hist'[Len(hist')].n \in {1, 4, pongleft}
+EmitNext == Next /\ SendFirst /\ FillBudget /\ SizeBudget /\ PongBudget
+EmitSpec == Init /\ [][EmitNext]_vars
+
+\* A behaviour is worth replaying when the reader is at rest and everything sent was consumed
+Done == Quiescent /\ (IsWs => wsq = <<>>) /\ Len(sent) = MaxFrames
+
+\* ... and a behaviour ends when everything was consumed (and, if the peer closed, the close was observed)
+Finished == Done /\ (eof => pc = "closed")
+StopWhenFinished == ~Finished            \* ACTION_CONSTRAINT: no step out of a finished state
+
+Emit == IF "EMIT" \in DOMAIN IOEnv /\ Finished
         THEN PrintT(<<"REPLAY", ToJson([cfg |-> cfg, steps |-> hist])>>) ELSE TRUE
 EmitInv == Emit
 =============================================================================
